@@ -93,6 +93,10 @@ def run_config(ctx, name, wrapper, defines, entry, args, time_limit=120, flavour
                hooks=None, hook_opts=None, max_paths=10**9, note='', expect_reach=(), jobs=None, extra_ir=(), extra_native=()):
     """one bounded exploration = one 'query' of the evidence. Returns the aggregate dict (or None when inconclusive)."""
     t0 = time.time()
+    left = getattr(ctx, 'deadline', t0 + 10**9) - t0
+    if left < 20:
+        ctx.skipped.append(name); return None
+    time_limit = min(time_limit, max(20, left - 10), max(60, getattr(ctx, 'budget_s', 10**9) / 5))     # no row may eat more than a fifth of the check's budget
     rec = dict(name=name, engine='E2 irsym', wrapper=wrapper, defines=list(defines), entry=entry, args=list(args), ir_flavour=flavour, note=note)
     try:
         ll = ctx.build_ir(wrapper, defines, flavour, extra=extra_ir)
@@ -180,7 +184,5 @@ def run_configs(ctx, specs, jobs_outer=1):
     out = {}
     deadline = getattr(ctx, 'deadline', None)
     for sp in specs:
-        if deadline and time.time() > deadline:
-            ctx.skipped = getattr(ctx, 'skipped', []) + [sp['name']]; continue
         out[sp['name']] = run_config(ctx, **sp)
     return out
